@@ -47,6 +47,8 @@ def mk_op(o):
     p = o.get("p", [])
     if name == "MeasureHomodyne":
         sel = p[1]
+        if len(p) >= 3 and fr(p[2]) == 0:       # <<angle, select, has_select>>
+            sel = None
         kw = {} if sel is None or sel == "none" else {"select": float(fr(sel))}
         return ops.MeasureHomodyne(to_float("angle", p[0]), **kw)
     if name == "MeasureHeterodyne":
